@@ -108,7 +108,7 @@ ADDED = {
  'C07': ' Added: all copies of one save/restore block go the same direction (one named exception); persistent work matrices of the factories are fully defined before their first read in factor(); triangle typestate lower -> symm -> two-sided ormqr. Wave 3: tbmv/tbsv pairs address the same block; ormqr uses the offset/count of its geqrf; one order of double scalings per factory; exclusive-contribution rule; direction rule covers scalar state.',
  'C08': " Added: running index variables seeded from an offset address only that offset's matrix; trisc/triusc run under the same path condition; the compiled kernels special-case a cone block only on size zero, like the Python reference. Wave 3: every parsed variable of a compiled kernel is read before it is overwritten and every parameter of a Python kernel is read; if/else arms applying an operation and its inverse have identical argument lists.",
  'C09': ' Added: no file-scope or static variable of the six C files is written outside module initialisation (the gees/gges callback slots are a named exception). Wave 3: module-level state of the back-ends (glpk.options) is a protected root of the effect analysis.',
- 'C11': ' Added: negated terms change between the convex and the concave list, copied terms do not. Wave 3: the path condition of every raise is satisfiable (no dead refusal). Round 4: a read-modify-write through an alias still names the written object; every argument filed into a max/min is tested for the matching curvature on its path; an in-place operator replaces all components of self or none; the first entry of a constant term is a zero test only under its length-1 test.',
+ 'C11': ' Added: negated terms change between the convex and the concave list, copied terms do not. Wave 3: the path condition of every raise is satisfiable (no dead refusal). Round 4: a read-modify-write through an alias still names the written object; every argument filed into a max/min is tested for the matching curvature on its path; an in-place operator replaces all components of self or none; the first entry of a constant term is a zero test only under its length-1 test; no in-place +=/-= of a non-sparse operand on a possibly sparse coefficient (contract of the spmatrix slots read off sparse.c).',
  'C12': ' Wave 3: results are written back whatever the solver returned; G/A assembly loops are alpha-equivalent.',
  'C13': ' Added: solve, _inmatrixform, tofile and the accessors write nothing reachable from the op except the documented results (effect analysis with self protected). Wave 3: no shared mutable per-variable record (dict.fromkeys with a mutable value); varlist accumulators are only extended in place.',
  'C14': ' Wave 3: bound values of exactly 0.0 are values, not absent; no record group is skipped on the first element of a vector.',
